@@ -244,6 +244,18 @@ func runShapeCase(r *engine.Run, im *objdrv.Impl, c shapeCase, fill func(aux map
 				aux["alt:value-last"] = ap[i]
 			}
 		}
+		// alternative model of the known finding c07-property-map-late-filter
+		bo, bl, bp := shapeModel(c, om.Quirks{PropertyMapLateFilter: true})
+		switch {
+		case d.label == "op":
+			aux["alt:late-filter"] = bo
+		case d.label == "oplog":
+			aux["alt:late-filter"] = bl
+		default:
+			if i := indexOf(labels, d.label); i >= 0 {
+				aux["alt:late-filter"] = bp[i]
+			}
+		}
 		debugDump(c.key+"#"+d.label, aux["part"], d.exp, d.obs)
 		r.Mismatch(engine.Mismatch{Key: c.key + "#" + d.label, Input: src + "observe: " + d.label, Expected: d.exp, Observed: d.obs, Aux: aux})
 	}
@@ -393,6 +405,18 @@ func runDescShape(r *engine.Run) {
 	val := func(n float64) map[string]om.Value {
 		return map[string]om.Value{"value": om.Num(n), "enumerable": om.TrueV}
 	}
+	// a property map whose member a is read through a getter that mutates the map before b's turn
+	mutatingMap := func(w *world, mutate func(m *om.Obj)) om.Value {
+		m := w.r.NewObject()
+		getter := w.r.NewFunction("", func(r *om.Realm, _ om.Value, _ []om.Value) om.Value {
+			r.Log = append(r.Log, "m:a")
+			mutate(m)
+			return lit(w, val(1))
+		})
+		m.Set("a", om.Desc{Get: om.ObjV(getter), HasGet: true, HasSet: true, Enumerable: true, HasEnumerable: true, Configurable: true, HasConfigurable: true})
+		w.r.Put(m, "b", lit(w, val(2)), false)
+		return om.ObjV(m)
+	}
 	maps := []pmap{
 		{"own", "__m = {a:{value:1,enumerable:true}, b:{value:2,enumerable:true}};", func(w *world) om.Value {
 			m := w.r.NewObject()
@@ -453,6 +477,19 @@ func runDescShape(r *engine.Run) {
 			w.r.Put(m, "b", om.Num(1), false)
 			return om.ObjV(m)
 		}},
+		{"getter-deletes-later-name", `__m = {}; Object.defineProperty(__m,"a",{get:function(){ __log[__log.length] = "m:a"; delete __m.b; return {value:1,enumerable:true}; },enumerable:true,configurable:true}); __m.b = {value:2,enumerable:true};`, func(w *world) om.Value {
+			return mutatingMap(w, func(m *om.Obj) { w.r.Delete(m, "b", false) })
+		}},
+		{"getter-adds-a-name", `__m = {}; Object.defineProperty(__m,"a",{get:function(){ __log[__log.length] = "m:a"; __m.c = {value:3,enumerable:true}; return {value:1,enumerable:true}; },enumerable:true,configurable:true}); __m.b = {value:2,enumerable:true};`, func(w *world) om.Value {
+			return mutatingMap(w, func(m *om.Obj) {
+				w.r.Put(m, "c", lit(w, map[string]om.Value{"value": om.Num(3), "enumerable": om.TrueV}), false)
+			})
+		}},
+		{"getter-hides-later-name", `__m = {}; Object.defineProperty(__m,"a",{get:function(){ __log[__log.length] = "m:a"; Object.defineProperty(__m,"b",{enumerable:false}); return {value:1,enumerable:true}; },enumerable:true,configurable:true}); __m.b = {value:2,enumerable:true};`, func(w *world) om.Value {
+			return mutatingMap(w, func(m *om.Obj) {
+				w.r.DefineOwnProperty(m, "b", om.Desc{Enumerable: false, HasEnumerable: true}, false)
+			})
+		}},
 		{"map-is-array", `__m = [{value:1,enumerable:true}]; __m.a = {value:2,enumerable:true};`, func(w *world) om.Value {
 			m := w.r.NewArrayFrom([]om.Value{lit(w, val(1))})
 			w.r.Put(m, "a", lit(w, val(2)), false)
@@ -463,7 +500,7 @@ func runDescShape(r *engine.Run) {
 		{"map-null", `__m = null;`, func(w *world) om.Value { return om.NullV }},
 		{"map-number", `__m = 1;`, func(w *world) om.Value { return om.Num(1) }},
 	}
-	mapNames := []string{"a", "b", "0", "length"}
+	mapNames := []string{"a", "b", "c", "0", "length"}
 	for _, pm := range maps {
 		pm := pm
 		runShapeCase(r, im, shapeCase{key: "defineProperties/" + pm.id, setup: "o = {}; " + pm.js, expr: "Object.defineProperties(o,__m) === o", names: mapNames,
